@@ -107,7 +107,9 @@ func (s *SelfManaged) Receive(c *actor.Context) {
 		s.handleMemberPing(c)
 	case memberLeave:
 		member := s.members.GetByHost(msg.ListenAddr)
-		s.removeMember(member)
+		if member != nil {
+			s.removeMember(member)
+		}
 	case *actor.Ping:
 	case actor.Initialized:
 		_ = msg
